@@ -69,6 +69,10 @@ class Kid(Pool):
         """The child disables itself"""
         self._demand = 0
 
+    def __bool__(self):
+        # a pool that reports whether it has resources: false when fresh from the factory
+        return self.supply > 0
+
     # deterministic position in the pool's sets (no dependence on object addresses)
     def __hash__(self):
         return self.index
@@ -114,6 +118,7 @@ class World:
     def __init__(self, scenario):
         from cobald.composite.factory import FactoryPool
 
+        self.demands = scenario.get("demands", DEMANDS)
         self.stork = Stork(scenario["factory"])
         first = [self.stork.new(demand, demand) for demand in scenario["initial"]]
         self.pool = FactoryPool(*first, factory=self.stork, interval=INTERVAL)
@@ -186,7 +191,7 @@ class World:
         oldest is operated on (they are interchangeable)"""
         ops = [("adjust",)]
         requested = self.pool.demand
-        ops += [("write", demand) for demand in DEMANDS if demand != requested]
+        ops += [("write", demand) for demand in self.demands if demand != requested]
         classes = set()
         for number in sorted(obs.fields):
             if self.stork.kids[number] is None:
@@ -562,8 +567,15 @@ def shard(args):
 def scenarios():
     initials = [[]] + [[a] for a in INITIAL_DEMANDS] + [
         [a, b] for a in INITIAL_DEMANDS for b in INITIAL_DEMANDS]
-    return [{"initial": initial, "factory": factory}
-            for initial in initials for factory in FACTORIES]
+    out = [{"initial": initial, "factory": factory}
+           for initial in initials for factory in FACTORIES]
+    # large demands: a child that misses fitting by one part in 10**9 does not fit
+    big = 10 ** 9
+    for count in (2, 3):
+        out.append({"initial": [big] * count, "factory": [big],
+                    "demands": [0, big, 2 * big, 2 * big + 1, 3 * big - 1, 3 * big,
+                                2 * big + 0.5]})
+    return out
 
 
 def run(ctx):
